@@ -193,6 +193,10 @@ func scenCCH(s *sched.Sim, cfg Config, res *Result) {
 		case 3:
 			st.mode = "overlap"
 			st.reqs = []int{s.T.Choose(len(pool)), s.T.Choose(len(pool))}
+			if s.T.Bool(1, 3) {
+				// the same request from two clients at once (they share one cached plan object)
+				st.reqs[1] = st.reqs[0]
+			}
 		}
 		steps = append(steps, st)
 	}
